@@ -20,10 +20,11 @@ the source and written as data:
         s.I = vaddq_f32(s.I, vreinterpretq_f32_u32(vandq_u32(lut, pK)));
         vst1q_f32_x4(rowptr, s);                              s.0..s.3 at offsets 0, 4, 8, 12
 
-The safe wrappers `Sse2::score_rows_into` and `Neon::score_f32_rows_into` must contain, in
-order, the wrap guard, the `L < M || rows.is_empty()` early return, the row-range assertion and
-the resize before the kernel call (the guards modelled by SimdModel.simd_guard; for NEON this is
-their only tie to the source).
+The recognised steps of the safe wrappers `Sse2::score_rows_into` and `Neon::score_f32_rows_into`
+(wrap guard, `L < M || rows.is_empty()` early return, row-range assertion, resize, kernel call, any
+other early exit) are written in source order as `sse2_wrapper` / `neon_wrapper`; the theorem
+C01_wrapper_guards_as_modelled compares them with the order SimdModel.simd_guard models (for NEON
+this is the only tie of the guards to the source).
 
 For each accumulator the generated file gives the path of halves (false = low /
 `.0`, true = high / `.1`) from the loaded register down to the register compared
@@ -215,30 +216,6 @@ def parse_neon(src):
     return dict(paths=paths, stores=[0, 4, 8, 12])
 
 
-GUARDS = [
-    (r"if\s+seq\s*\.\s*wrap\s*\(\s*\)\s*<\s*pssm\s*\.\s*rows\s*\(\s*\)\s*-\s*1\s*\{\s*panic!",
-     "guard `seq.wrap() < pssm.rows() - 1 => panic`"),
-    (r"if\s+seq\s*\.\s*len\s*\(\s*\)\s*<\s*pssm\s*\.\s*rows\s*\(\s*\)\s*\|\|\s*rows\s*\.\s*is_empty\s*\(\s*\)\s*\{\s*scores\s*\.\s*resize\s*\(\s*0\s*,\s*0\s*\)\s*;\s*return\s*;",
-     "early return `seq.len() < pssm.rows() || rows.is_empty() => resize(0, 0)`"),
-    (r"if\s+rows\s*\.\s*end\s*\+\s*pssm\s*\.\s*rows\s*\(\s*\)\s*-\s*1\s*>\s*seq\s*\.\s*matrix\s*\(\s*\)\s*\.\s*rows\s*\(\s*\)\s*\{\s*panic!",
-     "guard `rows.end + pssm.rows() - 1 > seq.matrix().rows() => panic`"),
-    (r"scores\s*\.\s*resize\s*\(\s*rows\s*\.\s*len\s*\(\s*\)\s*,\s*\(\s*seq\s*\.\s*len\s*\(\s*\)\s*\+\s*1\s*\)\s*\.\s*saturating_sub\s*\(\s*pssm\s*\.\s*rows\s*\(\s*\)\s*\)\s*\)\s*;",
-     "resize(rows.len(), (seq.len() + 1).saturating_sub(pssm.rows()))"),
-]
-
-
-def check_wrapper(src, fn, kernel_call):
-    """The safe wrapper must establish, in this order, the guards modelled by SimdModel.simd_guard
-    before it calls the kernel (for NEON this is the only tie of the guards to the source)."""
-    body = _function_body(src, fn)
-    pos = 0
-    for rx, what in GUARDS + [(kernel_call, "call of the kernel")]:
-        m = re.compile(rx).search(body, pos)
-        if not m:
-            raise ParseError("%s: %s not found (in this order)" % (fn, what))
-        pos = m.end()
-
-
 def _consts(name, k):
     paths = "; ".join("[" + "; ".join("true" if h else "false" for h in p) + "]" for p in k["paths"])
     return ["Definition %s : lane4_consts := mkLane4" % name,
@@ -246,7 +223,7 @@ def _consts(name, k):
             "  [" + "; ".join("%d" % o for o in k["stores"]) + "]."]
 
 
-def render(sse2, neon):
+def render(sse2, neon, wrappers):
     L = []
     L.append("(* GENERATED by translate/score_lane4.py from /repo/lightmotif/src/pli/platform/sse2.rs (score_sse2)")
     L.append("   and neon.rs (score_f32_neon) -- do not edit; regenerated on every check. *)")
@@ -261,6 +238,11 @@ def render(sse2, neon):
     L.append("")
     L += _consts("neon_consts", neon)
     L.append("")
+    L.append("(* the recognised steps of the safe wrappers Sse2::score_rows_into and Neon::score_f32_rows_into,")
+    L.append("   in source order (for NEON this is the only tie of the guards to the source) *)")
+    L.append("Definition sse2_wrapper : list wrapper_step := [%s]." % "; ".join(wrappers["sse2"]))
+    L.append("Definition neon_wrapper : list wrapper_step := [%s]." % "; ".join(wrappers["neon"]))
+    L.append("")
     return "\n".join(L)
 
 
@@ -271,10 +253,12 @@ def run(write=True):
         neon_src = _strip_comments(open(NEON).read())
         sse2 = parse_sse2(sse2_src)
         neon = parse_neon(neon_src)
-        check_wrapper(sse2_src, "score_rows_into", r"score_sse2\s*\(\s*pssm\s*,\s*seq\s*,\s*rows\s*,\s*scores\s*\)")
-        check_wrapper(neon_src, "score_f32_rows_into", r"score_f32_neon\s*\(\s*pssm\s*,\s*seq\s*,\s*rows\s*,\s*scores\s*\)")
-        text = render(sse2, neon)
-    except (ParseError, OSError, ValueError) as e:
+        sys.path.insert(0, VERIF)
+        from translate.score_avx2 import wrapper_steps
+        wrappers = dict(sse2=wrapper_steps(sse2_src, "score_rows_into", "score_sse2"),
+                        neon=wrapper_steps(neon_src, "score_f32_rows_into", "score_f32_neon"))
+        text = render(sse2, neon, wrappers)
+    except Exception as e:   # never crash the check: a source that cannot be read is a broken obligation
         errors.append("score_lane4: cannot parse the source: %s" % e)
         if not os.path.exists(OUT):
             errors.append("no previously generated GenLane4.v")
@@ -289,9 +273,9 @@ def run(write=True):
             with open(OUT, "w") as f:
                 f.write(text)
             changed = True
-    notes.append("score_lane4: sse2 paths %s stores %s; neon paths %s; wrapper guards of Sse2::score_rows_into and "
-                 "Neon::score_f32_rows_into present%s" % (
-        sse2["paths"], sse2["stores"], neon["paths"], " (regenerated)" if changed else ""))
+    notes.append("score_lane4: sse2 paths %s stores %s; neon paths %s; wrapper steps sse2 %s neon %s%s" % (
+        sse2["paths"], sse2["stores"], neon["paths"], len(wrappers["sse2"]), len(wrappers["neon"]),
+        " (regenerated)" if changed else ""))
     return dict(ok=True, notes=notes, errors=errors)
 
 
